@@ -219,11 +219,17 @@ func nsApplyOp(rt *rapid.T, h *nsHist, op string) {
 		}
 		p := nsPickByClass(rt, hist, "replay")
 		from := p.From
-		switch rapid.IntRange(0, 5).Draw(rt, "replay.foreign") {
+		switch rapid.IntRange(0, 6).Draw(rt, "replay.foreign") {
 		case 0:
 			from = netip.AddrPortFrom(netip.AddrFrom4([4]byte{192, 0, 2, byte(1 + rapid.IntRange(0, 3).Draw(rt, "replay.src"))}), 5555)
 		case 1:
 			from = netip.AddrPortFrom(p.From.Addr(), p.From.Port()+uint16(rapid.SampledFrom([]int{1, 2, 1000}).Draw(rt, "replay.port")))
+		case 2:
+			// an underlay source inside the receiver's own overlay network (the datagram came in through
+			// one of its own tunnels, or somebody spoofs such an address)
+			if a, ok := nsInsideOverlayOf(w, p.To); ok {
+				from = a
+			}
 		}
 		h.note("replay %v from %v", p, from)
 		nsDeliverUnauth(rt, h, p, from, p.To, "replay")
@@ -610,4 +616,22 @@ func nsConsumed(x *nsNode, hd header.H) bool {
 	cs.decryptLock.Lock()
 	defer cs.decryptLock.Unlock()
 	return !cs.window.Check(x.ctrl.l, hd.MessageCounter)
+}
+
+// nsInsideOverlayOf returns an underlay address that lies inside the first IPv4 overlay network of the
+// node listening on to (an address no peer of the world uses).
+func nsInsideOverlayOf(w *nsWorld, to netip.AddrPort) (netip.AddrPort, bool) {
+	for i, sp := range w.specs {
+		if sp.udp != to || !w.live(i) {
+			continue
+		}
+		for _, n := range sp.nets {
+			if n.Addr().Is4() {
+				b := n.Masked().Addr().As4()
+				b[3] = 250
+				return netip.AddrPortFrom(netip.AddrFrom4(b), 4242), true
+			}
+		}
+	}
+	return netip.AddrPort{}, false
 }
